@@ -14,7 +14,7 @@ RULE = ("Blocked: every thread program of call depth 1..4 with 0..3 nested `with
         "contexts on every user frame; not-started and finished threads have no frames. Racing: a target thread runs a program "
         "whose consecutive gates differ in block stack and value stack (nested withs entered/left, loop iterations, call "
         "arguments on the stack); it is parked in a C-level Semaphore.acquire, so its frames are genuinely running. For "
-        "lowlevel.inspect_frame(frame) and extract(thread), at EVERY possible thread-switch point (after each call instruction, at each backward jump and function entry - CPython's eval-breaker checks - observed with per-opcode tracing) inside inspect_frame / unwrap_thread / "
+        "lowlevel.inspect_frame(frame), extract(thread) and extract_since(<frame of the other thread>), at EVERY possible thread-switch point (after each call instruction, at each backward jump and function entry - CPython's eval-breaker checks - observed with per-opcode tracing) inside inspect_frame / unwrap_thread / "
         "unwrap_stackslice the target is advanced by k gates (k = 1..to completion; and 'finishes and an impostor thread starts') "
         "- all single deviations (quick) and all pairs (thorough). Oracle: no exception escapes, the worker survives, inspect_frame "
         "raises or returns the quiescent reference snapshot of a position the target occupied during the call, every frame "
@@ -36,6 +36,7 @@ def legs(tier):
     for v in ("3.12", "3.11"):
         out.append(Leg(v, n, args={"leg": "race_inspect"}, name=v + "-race-inspect"))
         out.append(Leg(v, n, args={"leg": "race_extract"}, name=v + "-race-extract"))
+        out.append(Leg(v, max(2, n // 2), args={"leg": "race_since"}, name=v + "-race-since"))
     # The 3.9/3.10 inspector has no validated-snapshot protocol (known finding F11, see known_findings.json): the racing
     # exploration is run there too, single deviations, until it meets the defect; what it meets is reported under
     # the finding's signature, anything with another signature is a violation as usual.
@@ -494,9 +495,17 @@ def check_inspect(R, refs, sched, start_pos):
     return "consistent", problems, out
 
 
-def check_extract(R, refs, sched, start_pos):
+def check_since(R, refs, sched, start_pos):
+    return check_extract(R, refs, sched, start_pos, since=True)
+
+
+def check_extract(R, refs, sched, start_pos, since=False):
     import stackscope
-    out = R.trace_run(R.codes, sched, lambda fr, t: stackscope.extract(t), start_pos)
+    if since:
+        # extract_since(<frame running on the other thread>): unwrap_stackslice searches the other threads' stacks
+        out = R.trace_run(R.codes, sched, lambda fr, t: stackscope.extract_since(fr), start_pos)
+    else:
+        out = R.trace_run(R.codes, sched, lambda fr, t: stackscope.extract(t), start_pos)
     problems = []
     if out["exc"] is not None:
         problems.append("extract(thread) raised %r" % (out["exc"],))
@@ -537,10 +546,10 @@ def run_race(ctx, which):
     outcomes = {}
     for ti in range(b["target_programs"]):
         R = Runner(ti)
-        R.codes = trace_codes("extract" if which == "race_extract" else "inspect")
+        R.codes = trace_codes("extract" if which in ("race_extract", "race_since") else "inspect")
         refs = R.reference()
         npos = R.npos
-        checker = check_extract if which == "race_extract" else check_inspect
+        checker = {"race_extract": check_extract, "race_since": check_since}.get(which, check_inspect)
         for start_pos in ((1, 3) if ctx.tier == "quick" else (1, 2, 3, 5)):
             if start_pos >= npos:
                 continue
@@ -550,7 +559,7 @@ def run_race(ctx, which):
                 ctx.violation({"leg": which, "target": ti, "start": start_pos, "schedule": {}}, "; ".join(problems)[:1200], vsig)
             npoints = out["npoints"]
             ctx.count("scheduling_points", npoints)
-            for sched in deviations(npoints, npos - start_pos, b["deviation_bound"], which == "race_extract"):
+            for sched in deviations(npoints, npos - start_pos, b["deviation_bound"], which in ("race_extract", "race_since")):
                 idx += 1
                 if not ctx.mine(idx):
                     continue
@@ -588,9 +597,9 @@ def replay(case):
         return [{"detail": p} for p in problems]
     which = case["leg"]
     R = Runner(case["target"])
-    R.codes = trace_codes("extract" if which == "race_extract" else "inspect")
+    R.codes = trace_codes("extract" if which in ("race_extract", "race_since") else "inspect")
     refs = R.reference()
     sched = dict((int(k), v) for k, v in case["schedule"].items())
-    checker = check_extract if which == "race_extract" else check_inspect
+    checker = {"race_extract": check_extract, "race_since": check_since}.get(which, check_inspect)
     outcome, problems, out = checker(R, refs, sched, case["start"])
     return [{"detail": p} for p in problems]
